@@ -4,6 +4,7 @@ def b_State_create_state_node : CR.SrcW.Builder where
   kind := .fill
   tag := ""
   xsd := "state"
+  path := []
   parent := ""
   attrs := []
   gattrs := []
@@ -27,7 +28,8 @@ def b_State_create_state_node_mapToXmlProp_it1 : CR.SrcW.Builder where
   key := "StateXMLNode.create_state_node/?mapToXmlProp(it1)"
   kind := .node
   tag := "?mapToXmlProp(it1)"
-  xsd := ""
+  xsd := "state"
+  path := ["?mapToXmlProp(it1)"]
   parent := "StateXMLNode.create_state_node"
   attrs := []
   gattrs := []
@@ -40,7 +42,8 @@ def b_State_create_state_node_time : CR.SrcW.Builder where
   key := "StateXMLNode.create_state_node/time"
   kind := .node
   tag := "time"
-  xsd := ""
+  xsd := "state"
+  path := ["time"]
   parent := "StateXMLNode.create_state_node"
   attrs := []
   gattrs := []
@@ -53,7 +56,8 @@ def b_State_create_state_node_position : CR.SrcW.Builder where
   key := "StateXMLNode.create_state_node/position"
   kind := .node
   tag := "position"
-  xsd := ""
+  xsd := "state"
+  path := ["position"]
   parent := "StateXMLNode.create_state_node"
   attrs := []
   gattrs := []
